@@ -148,7 +148,12 @@ func randJ5sSource(r *vh.Rand, pkg string, force bool) string {
 		switch d.kind {
 		case "enum":
 			fmt.Fprintf(&sb, "enum %s {\n", d.name)
-			for _, o := range []string{"ALPHA", "BETA", "GAMMA_RAY"}[:r.Range(1, 3)] {
+			opts := []string{"ALPHA", "BETA", "GAMMA_RAY"}[:r.Range(1, 3)]
+			if force {
+				// an option whose name is the enum prefix + an earlier option's name
+				opts = []string{"ALPHA", strings.ToUpper(d.name) + "_ALPHA", "BETA"}
+			}
+			for _, o := range opts {
 				fmt.Fprintf(&sb, "\toption %s\n", o)
 			}
 			sb.WriteString("}\n\n")
@@ -250,6 +255,7 @@ func randDescFile(r *vh.Rand, idx int) (protoreflect.FileDescriptor, error) {
 		{typ: T(descriptorpb.FieldDescriptorProto_TYPE_MESSAGE), typeName: ".j5.types.decimal.v1.Decimal", msgLike: true},
 		{typ: T(descriptorpb.FieldDescriptorProto_TYPE_MESSAGE), typeName: ".google.protobuf.Timestamp", msgLike: true},
 	}
+	force := idx == 0
 	nEnum := r.Range(1, 2)
 	var enums []*descriptorpb.EnumDescriptorProto
 	for i := 0; i < nEnum; i++ {
@@ -258,7 +264,14 @@ func randDescFile(r *vh.Rand, idx int) (protoreflect.FileDescriptor, error) {
 		e := &descriptorpb.EnumDescriptorProto{Name: proto.String(name)}
 		e.Value = append(e.Value, &descriptorpb.EnumValueDescriptorProto{Name: proto.String(up + "_UNSPECIFIED"), Number: proto.Int32(0)})
 		num := int32(0)
-		for _, v := range []string{"ONE", "TWO", up + "_X", "LAST_ONE"}[:r.Range(1, 4)] {
+		// "X" before "<PREFIX>X": the second one's short name is the prefix + the first one's short name
+		// (OptionByName must look for the name as written before trimming the prefix)
+		vals := []string{"X", up + "_X", "ONE", "LAST_ONE"}
+		nv := r.Range(1, 4)
+		if force && i == 0 {
+			nv = 4
+		}
+		for _, v := range vals[:nv] {
 			num += int32(r.Range(1, 3))
 			e.Value = append(e.Value, &descriptorpb.EnumValueDescriptorProto{Name: proto.String(up + "_" + v), Number: proto.Int32(num)})
 		}
@@ -267,7 +280,6 @@ func randDescFile(r *vh.Rand, idx int) (protoreflect.FileDescriptor, error) {
 	// the first file of every run always has the shapes that random draws may miss: three nested levels
 	// of flatten (Obj0 > Obj1 > Obj2 > Obj3) with an exposed oneof and at least three members in each
 	// flattened child, proto3 optional members innermost
-	force := idx == 0
 	nObj := r.Range(2, 5)
 	if force {
 		nObj = r.Range(4, 5)
